@@ -24,7 +24,7 @@ import (
 
 func init() { register("PoolPlace", c09pGen) }
 
-var c09pSkip = regexp.MustCompile(`^(host := p\.Host\(\)|_ = variable\.Set\(ctx, types\.VariableUpstreamConnectionID, .*\)|verifPoolYield\(.*\)|c\.addDownConnListenerOnce\(ctx\)|end := &(pingPong|binding)StreamEnd\{…\})$`)
+var c09pSkip = regexp.MustCompile(`^(host := p\.Host\(\)|_ = variable\.Set\(ctx, types\.VariableUpstreamConnectionID, .*\)|verifPoolYield\(.*\)|verifDialYield\(.*\)|c\.addDownConnListenerOnce\(ctx\)|end := &(pingPong|binding)StreamEnd\{…\})$`)
 
 // c09pNoMoves: no statement of the function moves a counter of the request ledger
 func c09pNoMoves(fd *ast.FuncDecl, skipFirst bool) error {
